@@ -3,6 +3,7 @@ package store
 import (
 	"context"
 	"math/rand"
+	"testing/synctest"
 )
 
 var _ = context.Background
@@ -22,6 +23,7 @@ type Profile struct {
 	Weights     map[string]int
 	AdvanceMs   []int64
 	Steps       int
+	Readers     int // concurrent reader goroutines (bursts of handle calls racing the driver's steps)
 }
 
 func pickS(r *rand.Rand, xs []string) string { return xs[r.Intn(len(xs))] }
@@ -68,6 +70,9 @@ func RandomHistory(e *Env, r *rand.Rand, p Profile) {
 		}
 	}
 	e.Apply(first)
+	if p.Readers > 0 {
+		e.StartReaders([]string{"r1", "r2", "r3"}[:p.Readers])
+	}
 	busy := map[string]bool{}
 	total := 0
 	for _, w := range p.Weights {
@@ -106,6 +111,25 @@ func RandomHistory(e *Env, r *rand.Rand, p Profile) {
 			x -= p.Weights[k]
 		}
 		pend := e.Pending()
+		if p.Readers > 0 && r.Intn(3) > 0 {
+			// bursts of handle calls that run concurrently with this step
+			e.mu.Lock()
+			var have []string
+			for n := range e.handles {
+				have = append(have, n)
+			}
+			e.mu.Unlock()
+			sortStrings(have)
+			if len(have) > 0 {
+				bursts := make([][]string, p.Readers)
+				for i := range bursts {
+					for k := r.Intn(3); k > 0; k-- {
+						bursts[i] = append(bursts[i], pickS(r, have))
+					}
+				}
+				e.PokeReaders(bursts)
+			}
+		}
 		switch kind {
 		case "respond":
 			if len(pend) > 0 {
@@ -160,6 +184,7 @@ func RandomHistory(e *Env, r *rand.Rand, p Profile) {
 			e.Apply(Step{Do: "cachefault", WFail: r.Intn(2) == 0})
 		}
 	}
+	synctest.Wait() // the last bursts of the readers
 }
 
 func sortStrings(xs []string) {
